@@ -24,7 +24,7 @@ ASSUMPTIONS = ["DT8 command 246 START AUTO CALIBRATION is recorded as not send-t
                "cannot confirm, that the standard requires it twice): pinned, not alarmed"]
 PARTIAL = "independence of the tables is limited by the absence of the normative documents (see TRUSTED)"
 LEVEL_TEXT = ("Lean 4 theorems: the regenerated class rows (opcode, address/instance byte, parameter flag, frame size, "
-              "send-twice, answer kind, device type) EQUAL the transcribed standard rows, none missing (table_conforms, "
+              "send-twice, answer kind, device type) of every class the standard names EQUAL the transcribed standard rows, and no standard row is missing (table_conforms, "
               "decide +kernel, re-run against the current tree each time); every row is registered for decoding under "
               "its standard opcode (rows_registered); for every legal object of every class the frame built is the "
               "standard's layout and decodes back to that command (frame_is_standard, unbounded in all arguments); "
@@ -62,9 +62,14 @@ def correspond(ctx, corr):
     for n in sorted(spec_names - lib_names):
         corr.violate("table:missing-class", n, "implemented", "no class of that name",
                      "a command of the standard's tables is not implemented")
-    for n in sorted(lib_names - spec_names):
-        corr.violate("table:unknown-class", n, "a row in the standard's tables", "none",
-                     "a class the transcribed tables do not know")
+    outside = sorted(lib_names - spec_names)
+    # a class the transcribed tables do not name cannot be judged by them: listed, never alarmed
+    # (its registration and round trip are C01/C02's business: TableOK, no_shared_frame)
+    corr.count("classes_outside_the_transcribed_tables", len(outside))
+    if outside:
+        print("NOTE: %d class(es) the transcribed IEC tables do not name (not judged): %s"
+              % (len(outside), ", ".join(outside[:10])))
+        corr.sample({"suite": "outside_tables", "classes": outside[:50]})
     lines, wants = [], []      # (line, expected answer, description)
     built = []                 # (object, request line, class name, args)
 
